@@ -102,7 +102,15 @@ XalanDOMStringCache::release(XalanDOMString&    theString)
         {
             theString.erase();
 
-            m_availableList.push_back(*i);
+            // This is called from destructors, so it must not throw.
+            try
+            {
+                m_availableList.push_back(*i);
+            }
+            catch(...)
+            {
+                m_allocator.destroy(theString);
+            }
         }
 
         m_busyList.erase(i);
